@@ -50,30 +50,44 @@ Proof.
   - vm_compute. repeat constructor.
 Qed.
 
-(* Atomicity of the composite operations: unlink, rename, mkdir, rmdir, touch, write_bytes / write_text,
-   read_bytes / read_text, iterdir / glob / rglob, FatFile.write / truncate / readall each are ONE outermost
-   lock section -- every lock event and every store of every execution (top level in program order; nested
-   blocks in any order, any number of times, cut short anywhere; calls to any depth) lies inside a single
-   with-block, with only lock-free and store-free code before and after.  Together with the exclusion
-   theorems of the lock (C13) this is what makes concurrent operations equivalent to a serial order. *)
-Theorem C14_composite_operations_single_section : forall f body t,
+(* Atomicity of the composite operations.  MUTATING: unlink, rename, mkdir, rmdir, touch, write_bytes / write_text,
+   FatFile.write / truncate each are ONE outermost lock section opened with the WRITE side -- every lock event and
+   every store of every execution (top level in program order; nested blocks in any order, any number of times, cut
+   short anywhere; calls to any depth) lies inside a single with-block, with only lock-free and store-free code before
+   and after.  READING (read_bytes / read_text / iterdir / glob / rglob / FatFile.readall, in the reading
+   configuration: access times off, files opened for reading): ONE section opened with the read side in which the
+   write side is never requested -- span_ok rejects an upgrade, because the lock implements it by letting go of the
+   read side first.  Together with the exclusion theorems of the lock (C13) this is what makes concurrent operations
+   equivalent to a serial order. *)
+Theorem C14_composite_operations_single_section : forall f body t w,
   In f atomic_entries -> nth_error skeleton f = Some body -> exec_seq skeleton all_on f body t ->
-  span_ok 0 0 t = true.
+  span_ok 0 0 w t = true.
 Proof. exact skel_atomic_single_section. Qed.
 Print Assumptions C14_composite_operations_single_section.
 
-Theorem C14_single_section_check_sound : forall prog env q,
+Theorem C14_reading_operations_single_section : forall f body t w,
+  In f atomic_read_entries -> nth_error skeleton f = Some body -> exec_seq skeleton serve_env f body t ->
+  span_ok 0 0 w t = true.
+Proof. exact skel_atomic_read_single_section. Qed.
+Print Assumptions C14_reading_operations_single_section.
+
+Theorem C14_single_section_check_sound : forall prog env q nw,
   (forall f body, nth_error prog f = Some body -> quiet_fn q env f body = true) ->
+  (forall f body, nth_error prog f = Some body -> nowrite_fn env nw f body = true) ->
   forall fi items t, exec_seq prog env fi items t ->
-  forall seen, one_span_items q env seen items = true -> span_ok (if seen then 2 else 0) 0 t = true.
+  forall seen w, one_span_items q env nw seen items = true -> span_ok (if seen then 2 else 0) 0 w t = true.
 Proof. exact one_span_sound. Qed.
 Print Assumptions C14_single_section_check_sound.
 
 Example C14_single_section_nonvacuous :
-  (* two sections in a row (pad, then write) are rejected; one section is accepted; so is its trace *)
-  one_span_items (fun _ => false) all_on false [SWith LD [SPoke 0]; SWith LD [SPoke 0]] = false /\
-  one_span_items (fun f => Nat.eqb f 7) all_on false [SCall [7]; SWith LD [SCall [3]; SPoke 0]; SCall [7]] = true /\
-  span_ok 0 0 [EAcq LD; EPoke 0; ERel LD; EAcq LD; EPoke 0; ERel LD] = false /\
-  span_ok 0 0 [EEnter 0 7; EExit; EAcq LD; EAcq LW; EPoke 0; ERel LW; EPoke 1; ERel LD; EYield] = true /\
-  (10 < List.length atomic_entries).
+  (* two sections in a row (pad, then write) are rejected; one section is accepted; checks under the read side
+     followed by an upgrade for the change are rejected; so are the corresponding traces *)
+  one_span_items (fun _ => false) all_on nw_none false [SWith LD [SPoke 0]; SWith LD [SPoke 0]] = false /\
+  one_span_items (fun f => Nat.eqb f 7) all_on nw_none false [SCall [7]; SWith LD [SCall [3]; SPoke 0]; SCall [7]] = true /\
+  one_span_items (fun _ => false) all_on nw_none false [SWith LR [SCall [3]; SWith LD [SPoke 0]]] = false /\
+  one_span_items (fun _ => false) all_on (fun f => Nat.eqb f 3) false [SWith LR [SCall [3]; SWith LR [SYield]]] = true /\
+  span_ok 0 0 false [EAcq LD; EPoke 0; ERel LD; EAcq LD; EPoke 0; ERel LD] = false /\
+  span_ok 0 0 false [EAcq LR; EAcq LD; EPoke 0; ERel LD; ERel LR] = false /\
+  span_ok 0 0 false [EEnter 0 7; EExit; EAcq LD; EAcq LW; EPoke 0; ERel LW; EPoke 1; ERel LD; EYield] = true /\
+  (8 < List.length atomic_entries) /\ (5 < List.length atomic_read_entries).
 Proof. repeat split; vm_compute; auto. Qed.
